@@ -10,6 +10,7 @@ Line-protocol driver for the payments model (property C06).
   cpsign <c> new|retry <offered> <received>       HTLC lists: `-` or `h:value_sat:cltv,...`
   hval   <c> new|retry <offered> <received>
   revoke <c>
+  cprevoke <c>                                   counterparty revokes its oldest unrevoked commitment
   fulfill <c> <h>
   heartbeat <now>
   restart
@@ -93,6 +94,10 @@ def step (s : St) (toks : List String) : St × String :=
   | ["revoke", c] =>
     match nat? c with
     | some c => run s (.revoke c) commitS
+    | none => (s, "bad-op")
+  | ["cprevoke", c] =>
+    match nat? c with
+    | some c => run s (.cpRevoke c) commitS
     | none => (s, "bad-op")
   | ["fulfill", _, h] =>
     match nat? h with
